@@ -61,12 +61,17 @@ func (s *scenario) settleRealTime(quiet, max time.Duration) {
 	// process was descheduled for a while (a loaded machine), elapsed wall-clock time alone says nothing about whether the
 	// scenario's goroutines have had a chance to run
 	deadline := time.Now().Add(max)
-	last := canonV(s.observe())
+	look := func() string { // the observable state without the clock reading (which changes by itself)
+		o := s.observe()
+		delete(o, "t")
+		return canonV(o)
+	}
+	last := look()
 	stableSince, polls := time.Now(), 0
 	for time.Now().Before(deadline) {
 		time.Sleep(200 * time.Microsecond)
 		runtime.Gosched()
-		cur := canonV(s.observe())
+		cur := look()
 		if cur != last {
 			last, stableSince, polls = cur, time.Now(), 0
 		} else if polls++; polls >= 12 && time.Since(stableSince) >= quiet {
